@@ -232,6 +232,8 @@ PIN_SCRIPTS = {
     "potentiometer-read-in-helper-after-redeclaration": "pot = Potentiometer('A0')\ndef sample():\n    return pot.read()\nx = sample()\npot = Potentiometer('A4')\ny = pot.read()\n",
     # (an Ultrasonic re-declared on other pins measures on the LAST declared pins everywhere on the pinned tree; the property speaks of "the
     #  declared pin" for Potentiometer.read() only, so that shape is not an obligation here)
+    "sleep-argument-reads-the-sensor-once": "pot = Potentiometer('A0')\nwhile True:\n    sleep(pot.read())\n    v = pot.read()\n    sleep(pot.read() // 4 + 7)\n    sleep(5)\n",
+    "sensor-read-inside-call-arguments-and-conditions": "pot = Potentiometer('A1')\ndef twice(x):\n    return x * 2\nwhile True:\n    a = twice(pot.read())\n    if pot.read() > 100:\n        a = a + 1\n    b = max(pot.read(), 3)\n    sleep(5)\n",
     "three-potentiometers-interleaved": "p = Potentiometer('A0')\nq = Potentiometer('A1')\nr = Potentiometer('A2')\nwhile True:\n    s = p.read() + q.read() + r.read()\n    t = r.read() - p.read()\n    sleep(5)\n",
 }
 
@@ -273,16 +275,17 @@ def _pin_one(job):
     n = {"k": 0}
 
     def sleep(ms):
-        n["k"] += 1
-        if n["k"] >= 2:
-            raise _Stop()
+        if ms == 5:                 # `sleep(5)` closes a pass of the main loop in these scripts
+            n["k"] += 1
+            if n["k"] >= 2:
+                raise _Stop()
     try:
         exec(compile(body, "<pins>", "exec"), {"Potentiometer": Potentiometer, "Ultrasonic": Ultrasonic, "sleep": sleep})
     except _Stop:
         pass
-    if fw[:len(host)] != host or len(fw) < len(host):
+    if fw != host:
         k = next((i for i, (a, b) in enumerate(zip(fw, host)) if a != b), min(len(fw), len(host)))
-        return name, "differs", {"read_number": k, "firmware_reads": fw[k:k + 3], "python_reads": host[k:k + 3]}, body
+        return name, "differs", {"read_number": k, "firmware_reads": fw[k:k + 3], "python_reads": host[k:k + 3], "counts": [len(fw), len(host)]}, body
     return name, "same", None, body
 
 
